@@ -132,6 +132,15 @@ CATALOGUE = [
     ("2-a", "drops", None, lambda c: 2 - c.a),
     ("2/a", "drops", None, lambda c: 2 / c.a),
     ("a**2", "drops", None, lambda c: c.a ** 2),
+    # (operands that leave the values as they are: the result is still an arithmetic result)
+    ("0+a", "drops", None, lambda c: 0 + c.a),
+    ("a+0, a-0", "drops", None, lambda c: (c.a + 0) - 0),
+    ("1*a", "drops", None, lambda c: 1 * c.a),
+    ("a*1, a/1", "drops", None, lambda c: (c.a * 1) / 1),
+    ("a**1", "drops", None, lambda c: c.a ** 1),
+    ("builtin sum([a])", "drops", None, lambda c: sum([c.a])),
+    ("builtin sum([a, a])", "drops", None, lambda c: sum([c.a, c.a])),
+    ("a+0.0", "drops", None, lambda c: c.a + 0.0),
     ("a+ndarray", "drops", None, lambda c: c.a + c.arg(np.ones(c.a.shape))),
     ("-a", "drops", None, lambda c: -c.a),
     ("a>1", "drops", None, lambda c: c.a > 1),
